@@ -50,6 +50,8 @@ type c06Case struct {
 	Events      []c06Event    `json:"events"`
 	Choices     []int         `json:"choices,omitempty"`
 	Tail        time.Duration `json:"tail,omitempty"` // quiet time before the stop (default 8s)
+	// StaticOnly (C16 wire): the interface has no wildcard stanza at all.
+	StaticOnly bool `json:"no_wildcard_stanza,omitempty"`
 	// plugins, when set, returns the option plugins of the interface (called inside
 	// the bubble, so that epochs are on the virtual clock). Not part of a replay file:
 	// the test that sets it sets it again when replaying.
@@ -312,6 +314,9 @@ func (c c06Case) String() string {
 	}
 	if c.UnicastOnly {
 		s = append([]string{"unicast-only"}, s...)
+	}
+	if c.StaticOnly {
+		s = append([]string{"no-wildcard"}, s...)
 	}
 	if c.Interval != 0 {
 		return "iv=" + c.Interval.String() + " " + strings.Join(s, " ")
